@@ -210,15 +210,8 @@ func (w *World) buildQuery(o *Obligation, g *Gen, uses []string) string {
 		}
 		sort.Strings(names)
 		for _, n := range names {
-			term := o.Inputs[n]
-			switch g.decls[term] {
-			case "Int", "Bool":
-				gv = append(gv, term)
-			case "Str":
-				gv = append(gv, app("len", term))
-				for k := 0; k < 12; k++ {
-					gv = append(gv, app("at", term, fmt.Sprint(k)))
-				}
+			if t, ok := o.InputTypes[n]; ok {
+				w.getValueTerms(o.Inputs[n], t, &gv)
 			}
 		}
 		if len(gv) > 0 {
